@@ -1237,7 +1237,13 @@ class SSHClientProcess(SSHProcess[AnyStr], SSHClientStreamSession[AnyStr]):
             self._recv_buf[datatype] = []
 
         buf = cast(AnyStr, '' if self._encoding else b'')
-        return buf.join(cast(Iterable[AnyStr], recv_buf))
+        output = buf.join(cast(Iterable[AnyStr], recv_buf))
+
+        # The collected data no longer occupies the receive buffer
+        self._recv_buf_len -= len(output)
+        self._maybe_resume_reading()
+
+        return output
 
     def session_started(self) -> None:
         """Start a process for this newly opened client channel"""
